@@ -401,7 +401,7 @@ def dyadic_refine(eng, ctx, extra, odd=False, quick=False):
     reals = [c for c in ctx.inputs.values() if c is not None and c.sort() == z3.RealSort()]
     if not reals:
         return None
-    levels = ((None, 50),) if odd else ((0, 1000), (1, 1000), (3, 10000), (6, 100000))
+    levels = ((None, 50), ("nodistinct", 50)) if odd else ((0, 1000), (1, 1000), (3, 10000), (6, 100000))
     if quick and not odd:
         levels = ((0, 1000), (3, 10000))
     for m, bound in levels:
@@ -417,7 +417,9 @@ def dyadic_refine(eng, ctx, extra, odd=False, quick=False):
             if odd:
                 # generic values: multiples of 1/97 that are no integers, pairwise distinct
                 cons.append(k % 97 != 0)
-        if odd and len(ks) > 1:
+        if odd and len(ks) > 1 and m != "nodistinct":
+            # pairwise distinct when possible (second attempt without: some paths force equal inputs,
+            # e.g. a header range that must equal the data's minimum)
             cons.append(z3.Distinct(*ks))
         save = (eng.timeout_ms, eng.inc_timeout_ms)
         eng.timeout_ms, eng.inc_timeout_ms = (1500, 1000) if quick else (4000, 2000)
@@ -465,7 +467,7 @@ def run_job(prop, prop_mod, harness, cfg, tier, seed, known_pass=None):
     }
     max_validate = 1000000 if tier == "thorough" else 12
     fp_probe = harness.fp_probe
-    max_probe = 1000 if tier == "thorough" else 6
+    max_probe = 1000 if tier == "thorough" else 12
     max_viol = 3
     tracer = _Tracer()
     state = {"ctx": None, "npaths": 0}
